@@ -1,4 +1,5 @@
 import FrappyProofs.Lemmas.LifecycleWait
+import FrappyProofs.Lemmas.MultiEvent
 import FrappyModel.Generated.C15
 /-
 C15 — Lifecycle: initialise, write config, poll, serve; shutdown in reverse order.
@@ -67,6 +68,7 @@ theorem shutdown_order_whole_run (cfg : Cfg) (fuel : Nat) (sched : List Act) (pi
   obtain ⟨rank, hr, hb⟩ := hacyc
   exact shutdownOrder_prefix _ _ _ _ (before_shutdown_plain cfg fuel sched)
     (shutdownLog_order _ _ _ pick rank (startup_modsNd cfg fuel) hclosed hr hb)
+    (shutdownLog_stop_all _ _ _ pick (startup_modsNd cfg fuel))
 
 /-- proved part: the shutdown phase (`shutdown_modules`) of the model stops every poll thread first, shuts every
 module down exactly once and users before the modules attached to them, whenever the resolved attachments of the
@@ -247,6 +249,63 @@ theorem sample_run_accepted :
     judge sampleCfg ⟨(run sampleCfg 20 [.main, .main, .step "c"] (fun _ => 1)).st.modules, [],
       (run sampleCfg 20 [.main, .main, .step "c"] (fun _ => 1)).log, []⟩ = [] := by
   decide +kernel
+
+/-- the model never polls after a shutdown and leaves no poll thread behind (the clause is there for the
+implementation: the threads are observed, not inferred from flags) -/
+theorem poll_threads_stopped (cfg : Cfg) (fuel : Nat) (sched : List Act) (pick : List Name → Nat) :
+    PollThreadsStopped (run cfg fuel sched pick).log :=
+  run_no_stray cfg fuel sched pick
+
+/-- The atomicity the start-phase theorems rely on, made explicit: in `frappy/lib/multievent.py`, at the granularity of
+its primitives (lock, event.set, event.clear, unlock — every interleaving of any number of threads that follows the
+protocol of `set_`/`clear_`), when a single thread `R` registers the single events and waits, `wait()` returns True only
+when no single event is pending.  (`ready_after_first_round` uses the abstract machine in which `set_` and `clear_`
+are atomic; the harness checks on every run that the real primitives follow `Frappy.MultiEvent.step`.) -/
+theorem multievent_wait_sound (R : Frappy.MultiEvent.Tid) (trace : List (Frappy.MultiEvent.Tid × Frappy.MultiEvent.Lbl))
+    (hreg : ∀ p ∈ trace, ∀ t, p.2 = Frappy.MultiEvent.Lbl.register t → p.1 = R)
+    (m m' : Frappy.MultiEvent.ME) (hrun : Frappy.MultiEvent.run {} trace = some m)
+    (hdone : Frappy.MultiEvent.step m R (Frappy.MultiEvent.Lbl.waitdone true) = some m') :
+    m.events = [] := by
+  have hj := Frappy.Proofs.MultiEvent.J_run R trace {} m (Frappy.Proofs.MultiEvent.J_init R) hreg hrun
+  cases hw : m.waiter with
+  | none => simp [Frappy.MultiEvent.step, hw] at hdone
+  | some p =>
+    obtain ⟨h, e⟩ := p
+    simp only [Frappy.MultiEvent.step, hw, if_true] at hdone
+    by_cases hc : (h == R && (e || m.flag)) = true
+    · simp only [Bool.and_eq_true, beq_iff_eq, Bool.or_eq_true] at hc
+      obtain ⟨rfl, hc⟩ := hc
+      rcases hc with he | hf
+      · subst he; exact hj.waitEmpty hw
+      · rcases hj.flagOk hf with h0 | ⟨T', hT'⟩
+        · exact h0
+        · have := hj.regHold T' (Or.inl hT')
+          subst this
+          exact absurd hT' (hj.waitHold T' e _ hw)
+    · rw [if_neg hc] at hdone; cases hdone
+
+/-- the protocol is followed by the real order of primitives ... -/
+example : Frappy.MultiEvent.firstStuck {} 0
+    [("main", .register "a"), ("main", .lock), ("main", .evclear), ("main", .unlock),
+     ("t", .fire "a"), ("t", .lock), ("t", .evset), ("t", .unlock), ("main", .wait), ("main", .waitdone true)] = none := by
+  decide
+
+/-- ... and a `set_` that sets the event after releasing the lock (seeded change C15-m2) is not a trace of it -/
+theorem set_outside_lock_unfollowable : Frappy.MultiEvent.firstStuck {} 0
+    [("main", .register "a"), ("main", .lock), ("main", .evclear), ("main", .unlock),
+     ("t", .fire "a"), ("t", .lock), ("t", .unlock), ("t", .evset)] = some 6 := by
+  decide
+
+/-- the acyclicity test of the monitors (Kahn stripping) is exactly "has a topological numbering" of the edges inside
+the node list — sound (the stripping rounds are such a numbering, bounded by the number of nodes) and complete -/
+theorem acyclicB_iff (nodes : List Name) (edges : List (Name × Name)) :
+    acyclicB nodes edges = true ↔
+      ∃ rank : Name → Nat, ∀ e ∈ edges, e.1 ∈ nodes → e.2 ∈ nodes → rank e.2 < rank e.1 := by
+  constructor
+  · intro h
+    obtain ⟨rank, hr, _⟩ := acyclicB_sound nodes edges h
+    exact ⟨rank, hr⟩
+  · exact acyclicB_complete nodes edges
 
 /-- constants of the source the harness and the generators rely on (start-up timeout of `_processCfg`, default
 export flags): re-extracted on every run, an edit breaks this proof -/
